@@ -371,13 +371,13 @@ Definition parse_case_obs (ops : list (nat * sop)) (l : list tok) : option case_
   end.
 
 (* ------------------------------------------------------------------ entry points *)
-Definition run_model (l : list tok) : list tok :=
+Definition run_model_case (l : list tok) : list tok :=
   match parse_case l with
   | Some (cf, n, ops) => print_case (run_case cf n ops)
   | None => bad_case
   end.
 
-Definition run_spec (l obs : list tok) : list tok :=
+Definition run_spec_case (l obs : list tok) : list tok :=
   match parse_case l with
   | Some (cf, n, ops) =>
       match parse_case_obs ops obs with
@@ -386,6 +386,30 @@ Definition run_spec (l obs : list tok) : list tok :=
       end
   | None => bad_case
   end.
+
+(* independence probe (harness/c05_purity.cc, ThreadSanitizer build; NOT a theorem - a run-time probe of the assumption that
+   concurrent StartSpan calls of several threads on one tracer share no hidden state):
+     PURITY <scenario 0 span trees on a shared tracer | 1 first StartSpan on fresh tracers> <threads> <rounds> <iters>
+   observation: PURE | DIFFERS x<description> | RACE x<report head> | HARNESSRACE x.. | CRASH .. | HANG *)
+Definition is_purity (l : list tok) : bool :=
+  match l with
+  | [t; TZ _; TZ _; TZ _; TZ _] => is_tag "PURITY" t
+  | _ => false
+  end.
+
+Definition spec_purity (obs : list tok) : list tok :=
+  match obs with
+  | [t] => if is_tag "PURE" t then [] else if is_tag "HANG" t then fail "purity:hang" else fail "obs:unparsable"
+  | t :: _ => if is_tag "RACE" t then fail "purity:data_race"
+              else if is_tag "DIFFERS" t then fail "purity:result_differs"
+              else if is_tag "HARNESSRACE" t then fail "harness:probe_race"
+              else if is_tag "CRASH" t then fail "purity:crash"
+              else fail "obs:unparsable"
+  | [] => fail "obs:unparsable"
+  end.
+
+Definition run_model (l : list tok) : list tok := if is_purity l then [tag "PURE"] else run_model_case l.
+Definition run_spec (l obs : list tok) : list tok := if is_purity l then spec_purity obs else run_spec_case l obs.
 
 (* ------------------------------------------------------------------ coverage tag of a case *)
 Local Open Scope string_scope.
@@ -429,6 +453,7 @@ Definition all_features : list string :=
   ["E"; "e"; "a"; "n"; "C"; "c"; "R"; "r"; "f"; "g"; "D"; "O"; "S"; "t"; "p"; "d"; "m"; "l"; "4"; "z"; "T"].
 
 Definition run_tag (l : list tok) : list tok :=
+  if is_purity l then [tag "independence_probe"] else
   match parse_case l with
   | Some (cf, n, ops) =>
       let fs := features cf (world0 n) ops in
